@@ -282,8 +282,9 @@ pub fn out_dims(op: &Op, a: &[&[usize]]) -> Option<Vec<usize>> {
             }
             let g = matmul_geom(a[0], *ta, a[1], *tb)?;
             if a.len() == 3 {
+                // the additive term is broadcast (right-aligned) over rows and batches
                 let c = a[2];
-                let ok = c == [1] || c == [g.cols] || c == [g.rows, g.cols] || c == [1, g.cols];
+                let ok = numel(c) == 1 && c.len() <= g.out.len() || (*c.last().unwrap() == g.cols && c.len() <= g.out.len() && broadcast_dims(c, &g.out).as_deref() == Some(&g.out[..]));
                 if !ok {
                     return None;
                 }
@@ -490,14 +491,13 @@ pub fn eval<S: Scalar>(op: &Op, args: &[(&[usize], &[S])]) -> Vec<S> {
                         }
                         if args.len() == 3 {
                             let cd = args[2].0;
-                            let cv = if cd == [1] {
+                            let cv = if args[2].1.len() == 1 {
                                 args[2].1[0]
-                            } else if cd.len() == 1 {
-                                args[2].1[c]
-                            } else if cd[0] == 1 {
-                                args[2].1[c]
                             } else {
-                                args[2].1[r * g.cols + c]
+                                let mut oi = lidx.clone();
+                                oi.push(r);
+                                oi.push(c);
+                                args[2].1[bidx(&oi, cd)]
                             };
                             s = s.add(cv);
                         }
